@@ -124,10 +124,17 @@ func CheckC08(v *View, st Stats) []Violation {
 	}
 	// ... and be the newest of the set's revisions: a re-used earlier revision is renumbered above all others
 	// (judged only when the reconcile saw the revisions the API holds, and nobody else changed them meanwhile)
-	if v.R.RevCacheFresh && !v.Deleting {
+	// Only revisions this set controls take part: a create that ran into a same-named revision of an earlier
+	// incarnation or of the built-in set uses that object as it is (upstream does the same), and such objects
+	// are not renumbered.
+	own := func(x *appsv1.ControllerRevision) bool {
+		c := world.ControllerOf(x)
+		return c != nil && c.UID == s.UID
+	}
+	if v.R.RevCacheFresh && !v.Deleting && own(rev) {
 		var newest *appsv1.ControllerRevision
 		for _, x := range v.RevsAfter {
-			if newest == nil || revLess(newest, x) {
+			if own(x) && (newest == nil || revLess(newest, x)) {
 				newest = x
 			}
 		}
